@@ -270,6 +270,9 @@ func park(o *op) *op {
 		panic("vsched: operation outside Run")
 	}
 	x := s.running
+	if x.killed { // deferred call of a goroutine that is being released at the end of the run
+		return o
+	}
 	x.op = o
 	s.yield <- x
 	<-x.wake
